@@ -26,7 +26,7 @@ LEVEL_NOTE = ('Lean kernel; hand-written model validated by correspondence, not 
 TECHNIQUE = 'Lean 4 theorems over an executable model + exact differential correspondence with the implementation'
 HAS_DRIVER = True
 EXTRA_MODULES = []
-FINDINGS_MODULE = 'ChythonModel.Findings.C17'
+FINDINGS_MODULE = None   # the one defect found (linear_hash_smiles) was repaired; no standing ¬full witness
 RULE = ('case = (entry point, parameters, molecule in a concrete numbering/insertion order); molecules from the repo corpus, '
         'hand-made set, exhaustive small graphs with random decoration, ring assemblies, each also renumbered; parameters '
         'from the grid radii 1..6 x length 2^k x active bits 1..4 x bit pairs 0..5 plus an out-of-grid stream (0/negative/'
@@ -47,7 +47,8 @@ LINEAR_OPS = ('chains', 'frags', 'lhs', 'lbs', 'lfp')
 NPARAMS = {'ident': 0, 'chains': 2, 'frags': 2, 'lhs': 3, 'lbs': 5, 'lfp': 5, 'mdict': 2, 'mhs': 2, 'mbs': 4, 'mfp': 4}
 ENTRY = {'ident': '_atom_identifiers', 'chains': '_chains', 'frags': '_fragments', 'lhs': 'linear_hash_set',
          'lbs': 'linear_bit_set', 'lfp': 'linear_fingerprint', 'mdict': '_morgan_hash_dict', 'mhs': 'morgan_hash_set',
-         'mbs': 'morgan_bit_set', 'mfp': 'morgan_fingerprint', 'fold': 'linear_bit_set/morgan_bit_set folding',
+         'mbs': 'morgan_bit_set', 'mfp': 'morgan_fingerprint', 'lhsm': 'linear_hash_smiles', 'mhsm': 'morgan_hash_smiles',
+         'fold': 'linear_bit_set/morgan_bit_set folding',
          'hash': 'hash(tuple)'}
 
 
@@ -79,7 +80,7 @@ def real_eval(op, params, mol):
         if op == 'chains':
             return ('ok', sorted(tuple(p) for p in mol._chains(*params)))
         if op == 'frags':
-            return ('ok', sorted((tuple(k), sorted(tuple(p) for p in v)) for k, v in mol._fragments(*params).items()))
+            return ('ok', sorted((tuple(k), _frag_list(tuple(k), v)) for k, v in mol._fragments(*params).items()))
         if op == 'lhs':
             return ('ok', sorted(mol.linear_hash_set(*params)))
         if op == 'lbs':
@@ -91,6 +92,10 @@ def real_eval(op, params, mol):
             if len(fp) != length or any(int(x) not in (0, 1) for x in fp):
                 return ('shape', len(fp))
             return ('ok', [i for i, x in enumerate(fp) if x])
+        if op == 'lhsm':
+            return ('ok', sorted((k, sorted(v)) for k, v in mol.linear_hash_smiles(*params).items()))
+        if op == 'mhsm':
+            return ('ok', sorted((k, sorted(v)) for k, v in mol.morgan_hash_smiles(*params).items()))
         if op == 'mdict':
             return ('ok', [sorted(d.items()) for d in mol._morgan_hash_dict(*params)])
         if op == 'mhs':
@@ -105,6 +110,14 @@ def real_eval(op, params, mol):
     except Exception as e:  # noqa
         return (_err(e), None)
     raise ValueError(op)
+
+
+def _frag_list(key, paths):
+    """canonical form of the list stored under a fragment key: a set of paths; under a palindromic key the direction
+    of an entry is not determined by the property (both directions spell the key), so it is normalised"""
+    if key == key[::-1]:
+        return sorted(min(tuple(p), tuple(p)[::-1]) for p in paths)
+    return sorted(tuple(p) for p in paths)
 
 
 def real_fold(length, nab, hashes, which):
@@ -146,12 +159,12 @@ def parse_model(op, resp):
         out = []
         for ent in (body.split('|') if body else []):
             k, ps = ent.split('=')
-            out.append((tuple(int(x) for x in k.split(',')),
-                        sorted(tuple(int(x) for x in p.split('-')) for p in ps.split(';'))))
+            key = tuple(int(x) for x in k.split(','))
+            out.append((key, _frag_list(key, [tuple(int(x) for x in p.split('-')) for p in ps.split(';')])))
         return ('ok', sorted(out))
     if op == 'mdict':
         return ('ok', [sorted((int(a), int(b)) for a, b in (t.split(':') for t in d.split()))
-                       for d in body.split('/')] if body else [])
+                       for d in body.split('/')[1:]])
     return ('ok', sorted(int(t) for t in toks))
 
 
@@ -178,10 +191,10 @@ def molecules(ctx):
     """(name, mol) stream: hand-made, corpus sample, test files, exhaustive small graphs decorated, ring assemblies."""
     rng = ctx.rng
     out = list(molgen.handmade())
-    out += molgen.corpus(rng, 40 if ctx.quick else 600)
+    out += molgen.corpus(rng, 120 if ctx.quick else 1200)
     tf = molgen.test_files()
     rng.shuffle(tf)
-    out += tf[:10 if ctx.quick else 200]
+    out += tf[:20 if ctx.quick else 300]
     # exhaustive connected labelled graphs on <= 4 (quick) / 5 (thorough) vertices, each decorated once
     for n in range(1, 5 if ctx.quick else 6):
         graphs = [()] if n == 1 else list(molgen.small_graphs(n))
@@ -194,7 +207,7 @@ def molecules(ctx):
             except Exception:
                 continue
             out.append((f'graph{n}{list(edges)}', m))
-    for i in range(12 if ctx.quick else 150):
+    for i in range(30 if ctx.quick else 300):
         edges = molgen.ring_assembly(rng)
         try:
             m = molgen.from_edges(edges, *(_decor(rng, edges, None)), calc=False)
@@ -393,7 +406,8 @@ def correspond(ctx):
             ctx.cov['disagreements_checked'] += 1
             ctx.broke('correspondence', ENTRY[op], f'{name} params={params}: real={_short(real)} model={_short(model)}')
             _remember(ctx, _shrink_note(op, params, name, line), mol)
-        elif len(ctx.cov['samples']) < 6 and len(mol._atoms) >= 3 and op in ('lhs', 'mhs', 'lbs', 'frags', 'chains', 'mbs'):
+        elif (len(ctx.cov['samples']) < 6 and len(mol._atoms) >= 4 and op in ('lhs', 'mhs', 'lbs', 'frags', 'chains', 'mbs')
+              and real[0] == 'ok' and len(real[1]) >= 3):
             if not any(s['op'] == op for s in ctx.cov['samples']):
                 ctx.sample({'op': op, 'entry': ENTRY[op], 'params': list(params), 'molecule': name,
                             'request': model_line(op, params, line)[:200], 'both': _short(real, 160)})
@@ -424,6 +438,8 @@ def correspond(ctx):
                     else:
                         ctx.broke('relational', 'numbering/' + ENTRY[op], f'{base[0]} vs {vname} params={params}')
 
+    smiles_dict_stream(ctx, groups)
+    malformed_stream(ctx, mols)
     history_stream(ctx)
     defaults_stream(ctx, [m for m in mols if 2 <= len(m[1]._atoms) <= 40][:30 if ctx.quick else 300])
 
@@ -450,6 +466,56 @@ def correspond(ctx):
             if str(hash(tuple(t))) != r.strip():
                 ctx.cov['disagreements_checked'] += 1
                 ctx.broke('correspondence', 'Py.Hash', f'hash({tuple(t)}) = {hash(tuple(t))}, model {r}')
+
+
+def smiles_dict_stream(ctx, groups):
+    """hash -> fragment SMILES dictionaries (no Lean model of the SMILES writer here: real vs real only):
+    keys equal the hash set; the dictionary does not depend on numbering / insertion order"""
+    rng = ctx.rng
+    todo = [g for g in groups if 2 <= len(g[1][0][1]._atoms) <= 30 and len(g[1]) > 1]
+    rng.shuffle(todo)
+    for name, variants0 in todo[:60 if ctx.quick else 600]:
+        # stereo marks are numbering-relative in chython and molgen.renumber carries them over untranslated, so the
+        # SMILES-bearing dictionaries are compared on stereo-free copies (the hashes themselves ignore stereo)
+        variants = []
+        try:
+            m0 = variants0[-1][1].copy()
+            m0.clean_stereo()
+            variants = [(variants0[-1][0] + '-stereo', m0), (variants0[-1][0] + '-stereo~r', molgen.renumber(rng, m0)[0])]
+        except Exception:
+            continue
+        lo, hi = rng.choice([r for r in RADII if r[1] <= 4])
+        nbp = rng.randint(0, 5)
+        for op, params, setop, sparams in (('lhsm', (lo, hi, nbp), 'lhs', (lo, hi, nbp)), ('mhsm', (lo, min(hi, 3)), 'mhs', (lo, min(hi, 3)))):
+            if op == 'mhsm' and (lo > min(hi, 3) or len(variants[0][1]._atoms) > 16):
+                continue
+            base = None
+            for vname, vm in variants:
+                try:
+                    d = real_eval(op, params, vm)
+                    hs = real_eval(setop, sparams, vm)
+                except Exception:
+                    continue
+                if d[0] != 'ok':
+                    if d[0].startswith('crash') and len(vm._atoms) and '+iso' not in vname and not name.startswith(('graph', 'rings')):
+                        ctx.notes.append(f'{ENTRY[op]} raised {d[0]} on {vname}')
+                    break
+                ctx.count(('smiles-dict', op, params, wire.mol_to_line(vm)), True)
+                ctx.dist('relational:' + op)
+                if [k for k, _ in d[1]] != hs[1]:
+                    ctx.fail(f'C17/dict-keys/{ENTRY[op]}', f'{ENTRY[op]}{params} keys differ from {ENTRY[setop]}{sparams} on {vname}',
+                             {'kind': 'dict-keys', 'op': op, 'params': list(params), 'mol': wire.mol_to_ints(vm)})
+                if base is None:
+                    base = (vname, vm, d)
+                elif d != base[2]:
+                    ctx.cov['disagreements_checked'] += 1
+                    inp = {'kind': 'numbering', 'op': op, 'params': list(params), 'mol': wire.mol_to_ints(base[1]),
+                           'mol2': wire.mol_to_ints(vm)}
+                    fails, what = probe(inp)
+                    if fails:
+                        ctx.fail(f'C17/numbering-dependence/{ENTRY[op]}', what, inp)
+                    else:
+                        ctx.broke('relational', 'numbering/' + ENTRY[op], f'{base[0]} vs {vname} params={params} (not reproduced from the wire form)')
 
 
 def _numbering_free(op, real):
@@ -638,6 +704,10 @@ def _full_params(op, params):
         lo, hi = params
     elif op == 'lhs':
         lo, hi, nbp = params
+    elif op == 'lhsm':
+        lo, hi, nbp = params
+    elif op == 'mhsm':
+        lo, hi = params
     elif op in ('lbs', 'lfp'):
         lo, hi, length, nab, nbp = params
     elif op in ('mbs', 'mfp'):
@@ -928,6 +998,64 @@ def history_stream(ctx):
                 _remember(ctx, {'op': 'history', 'input': inp, 'sig': 'C17/history-dependence/' + inp['edits'][-1][0]})
 
 
+def _dangling(ints, victim_index):
+    """drop one atom row from the wire form but keep the references to it in the neighbour lists; returns
+    (ints of the malformed graph, real object with exactly those dicts)"""
+    from chython import MoleculeContainer
+    from chython.containers.bonds import Bond
+    from chython.periodictable import Element
+    it = iter(ints)
+    n_atoms = next(it)
+    rows = []
+    for _ in range(n_atoms):
+        head = [next(it) for _ in range(8)]
+        nb = [(next(it), next(it), next(it)) for _ in range(head[7])]
+        rows.append((head, nb))
+    rows = [r for i, r in enumerate(rows) if i != victim_index]
+    out = [len(rows)]
+    mol = MoleculeContainer()
+    shared = {}
+    for head, nb in rows:
+        out += head
+        n, z, iso, ch, rad, h, st, deg = head
+        mol._atoms[n] = Element.from_atomic_number(z)(iso or None, charge=ch, is_radical=bool(rad),
+                                                       implicit_hydrogens=None if h < 0 else h)
+        mol._bonds[n] = {}
+        for m, o, s_ in nb:
+            out += [m, o, s_]
+            mol._bonds[n][m] = shared.setdefault(frozenset((n, m)), Bond(o))
+    return out, mol
+
+
+def malformed_stream(ctx, mols):
+    """graphs that violate the Graph invariant (a neighbour dict names an atom that does not exist): the Morgan entry
+    points must raise KeyError exactly where the model does (subscript of a missing key), and not otherwise"""
+    if not ctx.build_ok:
+        return
+    rng = ctx.rng
+    lines, meta = [], []
+    pool = [m for m in mols if 2 <= len(m[1]._atoms) <= 12 and any(m[1]._bonds.values())]
+    for name, mol in pool[:25 if ctx.quick else 200]:
+        ints = wire.mol_to_ints(mol)
+        cand = [i for i, n in enumerate(mol._atoms) if mol._bonds[n]]
+        bad_ints, bad = _dangling(ints, rng.choice(cand))
+        line = ' '.join(map(str, bad_ints))
+        for lo, hi in ((1, 1), (1, 2), (2, 3), (0, 2)):
+            for op, params in (('mdict', (lo, hi)), ('mhs', (lo, hi)), ('mbs', (lo, hi, 256, 2)), ('ident', ())):
+                lines.append(model_line(op, params, line))
+                meta.append((op, params, name, bad))
+    resp = run_driver('C17', lines)
+    for (op, params, name, bad), r in zip(meta, resp):
+        real = real_eval(op, params, bad)
+        ctx.count(('malformed', op, params, name), True)
+        ctx.dist('op:malformed-graph')
+        ctx.dist('outcome:' + real[0])
+        if parse_model(op, r) != real:
+            ctx.cov['disagreements_checked'] += 1
+            ctx.broke('correspondence', ENTRY[op] + '@malformed-graph', f'{name} minus one atom row, params={params}: '
+                      f'real={_short(real, 100)} model={_short(parse_model(op, r), 100)}')
+
+
 def defaults_stream(ctx, mols):
     """entry points called without arguments vs the model called with the regenerated default values"""
     d = _state.get('defaults')
@@ -997,9 +1125,17 @@ def probe(inp):
     if kind == 'fold':
         res = list(fold_checks(inp['length'], inp['nab'], inp['hashes']))
         return bool(res), '; '.join(w for _, w in res) or 'folding follows the documented windows and stays below length'
+    if kind == 'dict-keys':
+        mol, _ = wire.ints_to_mol(inp['mol'], calc=True)
+        op, params = inp['op'], tuple(inp['params'])
+        d = real_eval(op, params, mol)
+        hs = real_eval({'lhsm': 'lhs', 'mhsm': 'mhs'}[op], params, mol)
+        bad = d[0] != 'ok' or [k for k, _ in d[1]] != hs[1]
+        return bad, f'{ENTRY[op]}{params} keys {"differ from" if bad else "equal"} the hash set'
     if kind == 'numbering':
-        mol, _ = wire.ints_to_mol(inp['mol'])
-        mol2, _ = wire.ints_to_mol(inp['mol2'])
+        needs_labels = inp['op'] in ('lhsm', 'mhsm')
+        mol, _ = wire.ints_to_mol(inp['mol'], calc=needs_labels)
+        mol2, _ = wire.ints_to_mol(inp['mol2'], calc=needs_labels)
         op, params = inp['op'], tuple(inp['params'])
         a, b = _numbering_free(op, real_eval(op, params, mol)), _numbering_free(op, real_eval(op, params, mol2))
         if not in_grid(*_full_params(op, params)):
